@@ -15,6 +15,11 @@ import os
 import re
 
 from ..core import hx, unhx, parallel_map
+from .. import core as _core
+
+
+def core_BUILD():
+    return _core.BUILD
 from .. import termmodel as T
 from . import c12
 
@@ -568,7 +573,7 @@ def gen_args(rng, kind):
     return a
 
 
-def check_stdout(rep, replay, out):
+def check_stdout(rep, replay, out, tag=None):
     dec = T.decode(out)
     bad = 0
     for n, r in enumerate(dec.rows):
@@ -588,7 +593,7 @@ def check_stdout(rep, replay, out):
             what = "rendition"
         if what:
             bad += 1
-            _viol(rep, "newline-not-default:" + what,
+            _viol(rep, "newline-not-default:" + what + ((":" + tag) if tag else ""),
                           "at a newline of stdout the terminal is not in its default state (%s)" % what,
                           dict(replay, row=n, row_text=r.text()[:200], state=e.describe(), problems=r.problems[:3]))
             break
@@ -742,6 +747,82 @@ def cr_binary_oracle(ctx, rep):
         check_stdout(rep, dict(kind="binary", input_kind="cr:" + n, args=a, env={}, stdin_b64=base64.b64encode(inp).decode()), out)
 
 
+def diff_stat_oracle(ctx, rep):
+    """`git log --stat` blocks under --relative-paths with GIT_PREFIX (the diff-stat lines are rewritten by
+    relativize_path_in_diff_stat_line): coloured and plain graphs, long and non-ASCII paths, paths inside and outside
+    the prefix, several widths and --diff-stat-align-width values, hyperlinks on and off."""
+    import base64
+    rng = ctx.rng
+    work = os.path.join(core_BUILD(), "c09-work")
+    os.makedirs(os.path.join(work, "sub", "dir"), exist_ok=True)
+    g, r, z = "\x1b[32m", "\x1b[31m", "\x1b[m"
+
+    def stat_block(coloured, crlf=False):
+        paths = ["sub/dir/a_rather_long_file_name_for_the_stat.rs", "other/b.rs", "sub/dir/x.py", "sub/日本語/テキスト.txt",
+                 "sub/dir/deep/er/and/deeper/still/going/on/for/a/while/longer_than_the_width.c", "README.md", "sub/dir/a b.txt"]
+        rng.shuffle(paths)
+        paths = paths[:rng.randint(2, len(paths))]
+        w = max(len(p) for p in paths)
+        out = ["commit %040x" % rng.randrange(1 << 160), "Author: A <a@b.c>", "Date:   Mon Jan 1 00:00:00 2024 +0000", "", "    msg", ""]
+        for p in paths:
+            plus, minus = rng.randint(0, 40), rng.randint(0, 30)
+            if plus + minus == 0:
+                plus = 1
+            graph = (g + "+" * plus + z if plus else "") + (r + "-" * minus + z if minus else "") if coloured else "+" * plus + "-" * minus
+            out.append(" %s | %*d %s" % (p.ljust(w), 3, plus + minus, graph))
+        out.append(" %d files changed, 8 insertions(+), 6 deletions(-)" % len(paths))
+        return ("\n".join(out) + "\n").encode()
+    jobs = []
+    for k in range(ctx.n(90, 1500)):
+        inp = stat_block(coloured=k % 3 != 0)
+        a = ["--no-gitconfig", "--paging=never", "--relative-paths", "--width=%s" % rng.choice(["30", "40", "60", "72", "78", "100", "variable"])]
+        if rng.random() < 0.5:
+            a.append("--diff-stat-align-width=%d" % rng.choice([0, 10, 30, 48, 80]))
+        if rng.random() < 0.3:
+            a.append("--hyperlinks")
+        if rng.random() < 0.2:
+            a.append("--side-by-side")
+        jobs.append((inp, a, {"GIT_PREFIX": rng.choice(["sub/dir/", "sub/", "sub/dir/deep/"])}))
+    # the seeded family: fixed widths around the byte length of a coloured line
+    fixed = stat_block(True)
+    for wd in (60, 66, 70, 72, 74, 76, 78, 80, 90):
+        jobs.append((fixed, ["--no-gitconfig", "--paging=never", "--relative-paths", "--width=%d" % wd], {"GIT_PREFIX": "sub/dir/"}))
+    results = parallel_map(lambda j: ctx.run_delta(j[1], j[0], env=j[2], cwd=work, timeout=20), jobs)
+    for (inp, a, env), (rc, out, err) in zip(jobs, results):
+        rewritten = sum(1 for l in out.split(b"\n") if b"|" in l)
+        rep.case(key=("diff-stat", tuple(a), tuple(env.items()), inp), nontrivial=rewritten > 0,
+                 sample=dict(op="diff-stat", args=a, env=env, rc=rc, stat_rows=rewritten))
+        rep.count("diff-stat:" + ("coloured" if b"\x1b[32m" in inp else "plain"))
+        if rc != 0:
+            rep.count("diff-stat:rc=%s" % rc)
+        check_stdout(rep, dict(kind="binary", input_kind="diff-stat", args=a, env=env, cwd="sub/dir under a scratch work dir",
+                               stdin_b64=base64.b64encode(inp).decode()), out)
+
+
+def rg_multiline_oracle(ctx, rep):
+    """`rg --json` match records whose `lines.text` holds several lines (ripgrep --multiline), with submatches,
+    both grep output types, side-by-side on and off."""
+    import base64, json
+    def rec(text, ln, subs):
+        return json.dumps({"type": "match", "data": {"path": {"text": "src/a.rs"}, "lines": {"text": text}, "line_number": ln,
+                           "absolute_offset": 0, "submatches": [{"match": {"text": text[a:b]}, "start": a, "end": b} for a, b in subs]}})
+    begin = json.dumps({"type": "begin", "data": {"path": {"text": "src/a.rs"}}})
+    texts = [("fn foo() {\n    bar();\n}\n", [(3, 6)]), ("fn foo() {\n    bar();\n}\n", [(3, 6), (15, 18)]), ("a foo\nb foo\n", [(2, 5), (8, 11)]),
+             ("foo\nfoo", [(0, 3), (4, 7)]), ("x\n\nfoo\n", [(3, 6)]), ("foo bar\nbaz\n", [(4, 11)]), ("one line foo\n", [(9, 12)])]
+    jobs = []
+    for text, subs in texts:
+        inp = (begin + "\n" + rec(text, 10, subs) + "\n").encode()
+        for extra in ([], ["--side-by-side"], ["--grep-output-type=classic"], ["--grep-output-type=ripgrep", "--line-numbers"],
+                      ["--syntax-theme=none", "--grep-match-line-style=normal 52"]):
+            jobs.append((inp, ["--no-gitconfig", "--paging=never", "--width=60"] + extra, text.count("\n") > 1 or (text.count("\n") == 1 and not text.endswith("\n"))))
+    results = parallel_map(lambda j: ctx.run_delta(j[1], j[0], env={"DELTA_VERIF_FORCE_GUESS": "rg foo"}, timeout=20), jobs)
+    for (inp, a, multi), (rc, out, err) in zip(jobs, results):
+        rep.case(key=("rg-multiline", tuple(a), inp), nontrivial=multi, sample=dict(op="rg-json", args=a, multiline=multi, rc=rc))
+        rep.count("rg-json:" + ("multi-line" if multi else "single-line"))
+        check_stdout(rep, dict(kind="binary", input_kind="rg-json", args=a, env={"DELTA_VERIF_FORCE_GUESS": "rg foo"},
+                               stdin_b64=base64.b64encode(inp).decode()), out, tag="rg-json-multiline-match" if multi else None)
+
+
 def run(ctx, rep):
     rep.rule = ("hook level: random lists of (style, text) / random lines built from text and escape-sequence items "
                 "(SGR, OSC 8, EL), random fill styles, widths 0-12, five truncation tails, 10 side-by-side configs; "
@@ -762,6 +843,8 @@ def run(ctx, rep):
     decoration_oracle(ctx, rep)
     corr_cr(ctx, rep, mdl)
     cr_binary_oracle(ctx, rep)
+    diff_stat_oracle(ctx, rep)
+    rg_multiline_oracle(ctx, rep)
     corr_term(ctx, rep, mdl, o1 + o2 + o3 + blobs)
 
 
